@@ -78,6 +78,15 @@ def doc_shape(doc, targets, oldvals):
     return "+".join(sorted(set(flags))) or "plain"
 
 
+def _set_collision(matches, value):
+    """A Python set cannot hold two members that compare equal (1 and true):
+    replacing a member by a value equal to a sibling is Unspecified."""
+    for m in matches:
+        if is_set(m.p) and any(o is not m.v and o == value for o in m.p):
+            return True
+    return False
+
+
 def check_set(text, segs, value, res, doc_a=None, expect_targets=None):
     """One set on a fresh copy.  doc_a: untouched loaded copy."""
     from yamlpath.exceptions import YAMLPathException
@@ -92,6 +101,9 @@ def check_set(text, segs, value, res, doc_a=None, expect_targets=None):
         return
     if not matches or any(is_container(m.v) or m.p is None for m in matches):
         res.label("not-a-scalar-target")
+        return
+    if _set_collision(matches, value):
+        res.label("unspecified:set-member-collision")
         return
     ptext = gpaths.render(segs, ".")
     replace = {medit.poskey(m.p, m.r) for m in matches}
@@ -245,6 +257,8 @@ def run_histories(shard, res, dl):
             except (Unspecified, mq.ModelError):
                 return
             if not matches or any(is_container(m.v) for m in matches):
+                return
+            if _set_collision(matches, value):
                 return
             replace = {medit.poskey(m.p, m.r) for m in matches}
             alias_ids = {id(m.v) for m in matches
